@@ -70,6 +70,13 @@ Theorem C01_default_orders_admissible : forall n sl t, inrange n (leaves t) ->
 Proof. exact default_admissible. Qed.
 Print Assumptions C01_default_orders_admissible.
 
+(* the boolean admissibility check that the harness runs (inside Coq) on the axis orders the
+   real sort_contraction_indices produced is sound *)
+Theorem C01_admissible_check_sound : forall n sl io t,
+  admissible_b n sl io t = true -> admissible n sl io t.
+Proof. exact admissible_b_sound. Qed.
+Print Assumptions C01_admissible_check_sound.
+
 (* non-vacuity: 'aab,bcd,cd,->da' style network with a repeated index, a hyper index
    (c on three tensors incl. output? no: d), a scalar and an outer product *)
 Local Open Scope nat_scope.
